@@ -324,6 +324,10 @@ func scenarios() []scenario {
 		// a processable transaction disappears (block applied / replaced) while reorg verifies the next promotable one
 		mk("reorg-vs-remove-of-processable", conc.PoolCfg{Max: 4, PerSender: 3, ReplaceDiff: 1}, []opT{{"add", 0, 0, feeLo, 0}, {"add", 0, 1, feeLo, 0}, {Kind: "reorg"}, {"add", 0, 2, feeLo, 0}}, []opT{{Kind: "reorg"}}, []opT{{"remove", 0, 1, feeLo, 0}}),
 		mk("reorg-vs-replace-of-processable", conc.PoolCfg{Max: 4, PerSender: 3, ReplaceDiff: 1}, []opT{{"add", 0, 0, feeLo, 0}, {"add", 0, 1, feeLo, 0}, {Kind: "reorg"}, {"add", 0, 2, feeLo, 0}}, []opT{{Kind: "reorg"}}, []opT{{"add", 0, 1, feeHi, 0}}),
+		// the promotable transaction itself is replaced (same nonce, higher fee, verification answers pending / invalid) while reorg
+		// verifies the old one with the pool unlocked: the replacement must not become processable on the old one's verdict
+		mk("reorg-vs-replace-of-promotable-pending", conc.PoolCfg{Max: 4, PerSender: 3, ReplaceDiff: 1}, []opT{{"add", 0, 0, feeLo, 0}}, []opT{{Kind: "reorg"}}, []opT{{"add", 0, 0, feeHi, 3}}),
+		mk("reorg-vs-replace-of-second-promotable-invalid", conc.PoolCfg{Max: 4, PerSender: 3, ReplaceDiff: 1}, []opT{{"add", 0, 0, feeLo, 0}, {Kind: "reorg"}, {"add", 0, 1, feeLo, 0}}, []opT{{Kind: "reorg"}}, []opT{{"add", 0, 1, feeHi, 1}}),
 		mk("reorg-vs-reorg-vs-add", big, []opT{{"add", 0, 0, feeLo, 0}}, []opT{{Kind: "reorg"}}, []opT{{Kind: "reorg"}}, []opT{{"add", 0, 1, feeLo, 0}}),
 	}
 }
